@@ -145,6 +145,10 @@ Section TableFacts.
       rewrite app_assoc; reflexivity.
   Qed.
 End TableFacts.
+Arguments kstep_lookup {K V} eqb eqb_spec {E A} key_of entry_step t e k.
+Arguments kstep_actions {K V} eqb {E A} key_of entry_step t e.
+Arguments kstep_commute {K V} eqb eqb_spec {E A} key_of entry_step t e1 e2 _.
+Arguments krun_flow_alone {K V} eqb eqb_spec {E A} key_of entry_step k evs t t' _.
 
 (* ---------------- the two key types ---------------- *)
 Lemma opt_eqb_spec a b : opt_eqb a b = true <-> a = b.
@@ -167,6 +171,19 @@ Proof.
   split; [intros [[-> ->] ->]; reflexivity|intros [= -> -> ->]; auto].
 Qed.
 
+(* goals of the form  In a l -> a = x  for a literal list l of length <= 1 *)
+Ltac solve_in :=
+  simpl; let H := fresh "Hin" in intros H;
+  repeat match type of H with _ \/ _ => destruct H as [H|H] | False => destruct H end; subst; reflexivity.
+
+Ltac in_hyp H :=
+  simpl in H; repeat match type of H with _ \/ _ => destruct H as [H|H] | False => destruct H end; subst; try reflexivity.
+
+Lemma cstep_actions p t e : snd (cstep p t e) = snd (centry_step p (tlookup ckey_eqb (cev_key p e) t) e).
+Proof. apply (kstep_actions ckey_eqb (cev_key p) (centry_step p)). Qed.
+Lemma sstep_actions rp t e : snd (sstep rp t e) = snd (sentry_step rp (tlookup akey_eqb (sev_key rp e) t) e).
+Proof. apply (kstep_actions akey_eqb (sev_key rp) (sentry_step rp)). Qed.
+
 (* ===================================================================================== *)
 (* client binding table                                                                   *)
 (* ===================================================================================== *)
@@ -184,7 +201,7 @@ Qed.
 
 Lemma cstep_inv p seen t e : cinv p seen t -> cinv p (seen ++ [e]) (fst (cstep p t e)).
 Proof.
-  intros H k b. unfold cstep. rewrite (kstep_lookup ckey_eqb ckey_eqb_spec).
+  intros H k b. unfold cstep. rewrite (kstep_lookup ckey_eqb ckey_eqb_spec (cev_key p) (centry_step p)).
   destruct (ckey_eqb (cev_key p e) k) eqn:E; [|apply (cinv_more p seen e t H)].
   apply ckey_eqb_spec in E. subst k.
   pose proof (cinv_more p seen e t H (cev_key p e)) as Hold.
@@ -234,7 +251,7 @@ Theorem reply_goes_to_owner :
 Proof.
   intros p evs k content carried a Ha.
   pose proof (crun_inv p evs [] [] (cinv_nil p)) as Hi. simpl in Hi.
-  unfold cstep in Ha. rewrite kstep_actions in Ha. simpl in Ha.
+  rewrite cstep_actions in Ha. simpl in Ha.
   destruct (tlookup ckey_eqb k (fst (crun p [] evs))) as [b|] eqn:L; [|destruct Ha].
   destruct (Hi k b L) as [Hk (c0 & o & s & Hin)].
   destruct (b_alive b); [|destruct Ha]. destruct Ha as [<-|[]].
@@ -250,7 +267,7 @@ Theorem reply_delivered_when_bound :
     tlookup ckey_eqb k t = Some b -> b_alive b = true ->
     snd (cstep p t (CReply k content carried)) = [ToLocalApp k (b_sender b) (reply_label p b carried) content].
 Proof.
-  intros p t k b content carried L Al. unfold cstep. rewrite kstep_actions. simpl. rewrite L, Al. reflexivity.
+  intros p t k b content carried L Al. rewrite cstep_actions. simpl. rewrite L, Al. reflexivity.
 Qed.
 
 (* P2 (client half): what leaves towards the server is the datagram that came in: same content,
@@ -260,11 +277,11 @@ Theorem datagram_preserved_client :
     In a (snd (cstep p t (CLocal sender target content o s))) ->
     a = ToServer (new_key p sender target) target content.
 Proof.
-  intros p t sender target content o s a. unfold cstep. rewrite kstep_actions. simpl.
+  intros p t sender target content o s a. rewrite cstep_actions. simpl.
   destruct (tlookup ckey_eqb (new_key p sender target) t) as [[bs bt [|]]|]; simpl.
-  - destruct s; simpl; intros [<-|[]]; reflexivity.
-  - destruct (o && s); simpl; intros [<-|[]]; reflexivity.
-  - destruct (o && s); simpl; intros [<-|[]]; reflexivity.
+  - destruct s; solve_in.
+  - destruct (o && s); solve_in.
+  - destruct (o && s); solve_in.
 Qed.
 
 (* ===================================================================================== *)
@@ -275,7 +292,7 @@ Definition sinv (rp : bool) (t : stable) : Prop :=
 
 Lemma sstep_inv rp t e : sinv rp t -> sinv rp (fst (sstep rp t e)).
 Proof.
-  intros H k a. unfold sstep. rewrite (kstep_lookup akey_eqb akey_eqb_spec).
+  intros H k a. unfold sstep. rewrite (kstep_lookup akey_eqb akey_eqb_spec (sev_key rp) (sentry_step rp)).
   destruct (akey_eqb (sev_key rp e) k) eqn:E; [|apply H].
   apply akey_eqb_spec in E. subst k.
   pose proof (H (sev_key rp e)) as Hold.
@@ -342,19 +359,21 @@ Proof.
   unfold sstep. destruct (kstep akey_eqb (sev_key rp) (sentry_step rp) t (SDatagram g bind_ok resolvable fresh send_ok))
     as [t' acts]. simpl fst in HL. simpl snd in HA.
   change (sev_key rp (SDatagram g bind_ok resolvable fresh send_ok)) with k in HL, HA.
+  assert (Hk : k = associate_key rp (g_sid g) (g_user g) (g_client g)) by reflexivity.
+  clearbody k t. simpl in HL, HA. rewrite <- ?Hk in HL, HA.
   assert (Key : forall a0, tlookup akey_eqb k t = Some a0 ->
                   a_user a0 = g_user g /\ a_sid a0 = g_sid g /\ (rp = false -> a_client a0 = g_client g)).
-  { intros a0 L. pose proof (Hi k a0 L) as E. unfold k, associate_key in E.
+  { intros a0 L. pose proof (Hi k a0 L) as E. rewrite Hk in E. unfold associate_key in E.
     inversion E as [[E1 E2 E3]]. repeat split; auto. intros ->. inversion E3; reflexivity. }
   split; [|split].
   - intros a Ha. rewrite HA in Ha. simpl in Ha.
     destruct (tlookup akey_eqb k t) as [[s u c [|]]|] eqn:L; simpl in Ha.
     + destruct (Key _ eq_refl) as [Hu _]. simpl in Hu. subst u.
-      destruct (resolvable && fresh && send_ok); destruct Ha as [<-|[]]; reflexivity.
+      destruct (resolvable && fresh && send_ok); in_hyp Ha.
     + destruct bind_ok; simpl in Ha; [|destruct Ha].
-      destruct (resolvable && fresh && send_ok); destruct Ha as [<-|[]]; reflexivity.
+      destruct (resolvable && fresh && send_ok); in_hyp Ha.
     + destruct bind_ok; simpl in Ha; [|destruct Ha].
-      destruct (resolvable && fresh && send_ok); destruct Ha as [<-|[]]; reflexivity.
+      destruct (resolvable && fresh && send_ok); in_hyp Ha.
   - intros Hne. specialize (HL k). rewrite (eqb_refl akey_eqb akey_eqb_spec) in HL. rewrite HL. simpl.
     rewrite HA in Hne. simpl in Hne.
     destruct (tlookup akey_eqb k t) as [[s u c [|]]|] eqn:L; simpl in *.
@@ -380,7 +399,7 @@ Theorem reply_sealed_for_key_owner :
 Proof.
   intros rp evs k from content a Ha.
   pose proof (srun_inv rp evs [] (sinv_nil rp)) as Hi.
-  unfold sstep in Ha. rewrite kstep_actions in Ha. simpl in Ha.
+  rewrite sstep_actions in Ha. simpl in Ha.
   destruct (tlookup akey_eqb k (fst (srun rp [] evs))) as [a0|] eqn:L; [|destruct Ha].
   pose proof (Hi k a0 L) as E.
   destruct (a_alive a0); [|destruct Ha]. destruct Ha as [<-|[]].
@@ -395,14 +414,14 @@ Theorem one_in_one_out :
   (forall rp t e, (length (snd (sstep rp t e)) <= 1)%nat).
 Proof.
   split.
-  - intros p t e. unfold cstep. rewrite kstep_actions.
+  - intros p t e. rewrite cstep_actions.
     destruct e as [sender target content o s|k content carried|k|k]; simpl.
     + destruct (tlookup ckey_eqb (new_key p sender target) t) as [[bs bt [|]]|]; simpl;
         [destruct s|destruct (o && s)|destruct (o && s)]; simpl; lia.
     + destruct (tlookup ckey_eqb k t) as [b|]; simpl; [destruct (b_alive b)|]; simpl; lia.
     + destruct (tlookup ckey_eqb k t); simpl; lia.
     + lia.
-  - intros rp t e. unfold sstep. rewrite kstep_actions.
+  - intros rp t e. rewrite sstep_actions.
     destruct e as [g b r f s|k from content|k|k]; simpl.
     + destruct (tlookup akey_eqb (associate_key rp (g_sid g) (g_user g) (g_client g)) t) as [[si u c [|]]|]; simpl;
         [|destruct b; simpl|destruct b; simpl]; try destruct (r && f && s); simpl; lia.
@@ -489,8 +508,8 @@ Example ex_server_two_users :
   srun true [] [SDatagram (g 11 1 [1]) true true true true; SDatagram (g 22 1 [2]) true true true true;
                 SDatagram (g 11 1 [1]) true true false true (* replay: dropped *);
                 SPeer (5, Some 22, None) 53 [9]; SPeer (5, Some 11, None) 53 [8]]
-  = ([((5, Some 22, None), {| a_sid := 5; a_user := Some 22; a_client := 700; a_alive := true |});
-      ((5, Some 11, None), {| a_sid := 5; a_user := Some 11; a_client := 700; a_alive := true |})],
+  = ([((5, Some 11, None), {| a_sid := 5; a_user := Some 11; a_client := 700; a_alive := true |});
+      ((5, Some 22, None), {| a_sid := 5; a_user := Some 22; a_client := 700; a_alive := true |})],
      [((5, Some 11, None), ToPeer (5, Some 11, None) (Some 11) 53 [1]);
       ((5, Some 22, None), ToPeer (5, Some 22, None) (Some 22) 53 [2]);
       ((5, Some 22, None), ToClient (5, Some 22, None) 700 53 (Some 22) 5 [9]);
